@@ -37,7 +37,7 @@ type Result struct {
 	BadLine string // first line that does not match the documented grammar
 }
 
-var full = regexp.MustCompile(`^info depth (\d+) score (cp -?\d+|mate -?\d+) nodes (\d+) time (\d+) hashfull (\d+) pv( [a-h][1-8][a-h][1-8][nbrq]?)*\s?$`)
+var full = regexp.MustCompile(`^info depth (\d+) score ((?:cp|mate) -{0,2}\d+) nodes (\d+) time (\d+) hashfull (\d+) pv( [a-h][1-8][a-h][1-8][nbrq]?)*\s?$`)
 var abortLn = regexp.MustCompile(`^info depth (\d+) nodes (\d+)$`)
 
 // Parse parses search output.
